@@ -1,5 +1,6 @@
 import Netpoll.Poll.ExitLemmas
 import Netpoll.Poll.WakeLemmas
+import Netpoll.Poll.HupFlagLemmas
 /-!
 # C11 – the poller dispatches each descriptor's events completely and in order
 
@@ -303,6 +304,37 @@ example : (handleEvent 0 conn free inHup eofOnly).hup.isSome = true ∧
 
 /-- and when bytes were read in this event the hang-up is left for the next wake-up -/
 example : (handleEvent 0 conn free inHup dataThenEof).hup = none := by decide
+
+/-- **A reported hang-up is acted on.**  An event that carries the hang-up condition, for an ordinary operator whose token was
+free, ends in `appendHup` (the callback is queued – and run, by `C11_hup_reported` –, the descriptor deregistered, the detach
+counter taken) unless an `InputAck` of this very event carried a non-zero count.  `handleEvent` starts every event with
+`totalRead = 0`: what earlier descriptors of the batch delivered cannot keep a later one from being hung up (clause
+`hupActedOn` of the spec oracle judges the implementation on exactly this). -/
+theorem C11_hup_flag_acted_on (b : Nat) (op : Op) (st : OpSt) (t : Trig) (sc : Script)
+    (h1 : st.state = 1) (hw : op.wake = false) (hh : t.hup = true)
+    (hs : (handleEvent b op st t sc).stuck = false) (hz : nzAcksOf (handleEvent b op st t sc).tr = []) :
+    (handleEvent b op st t sc).hup = some op.onHup ∧
+      (handleEvent b op st t sc).st.detached = st.detached + 1 ∧
+      Cb.hupQueued op.onHup ∈ (handleEvent b op st t sc).tr ∧
+      Cb.detach (st.detached == 0) ∈ (handleEvent b op st t sc).tr := by
+  have hs' : (body op t sc).stuck = false := by
+    by_cases hb : (body op t sc).stuck = true
+    · simp [handleEvent, h1, hw, hb] at hs
+    · simpa using hb
+  have hc := handleEvent_conn b op st t sc h1 hw hs'
+  have hzb : nzAcksOf (body op t sc).tr = [] := by
+    rw [hc.1, nzAcksOf_append] at hz
+    exact (List.append_eq_nil_iff.1 hz).1
+  have hb := body_hup_of_no_nz op t sc hh hs' hzb
+  rw [hc.1, hc.2.1, hc.2.2.1]
+  simp [hb, hupTail]
+
+/-- a hang-up without the readable flag and a readable hang-up at EOF are both acted on … -/
+example : (handleEvent 0 conn free { rd := false, wr := true, hup := true, err := false } {}).hup = some true ∧
+    (handleEvent 0 conn free inHup eofOnly).hup = some true := by decide
+/-- … also behind a descriptor that delivered bytes in the same batch -/
+example : (2, Cb.onHupRun) ∈ (handleBatch 0 allFree [dataEv 1, { id := 2, op := conn, trig := { rd := false, wr := true, hup := true, err := false }, sc := {} }]).full := by
+  decide
 
 /-- **Every queued hang-up is reported.**  In a batch of distinct operators every operator that went
 through `appendHup` with a non-nil `OnHup` has it run (exactly once by `C11_hup_once_after_detach`),
